@@ -287,3 +287,28 @@ package document
 //@   invariant forall r int, c int :: 0 <= r && r < len(t.Rows) && 0 <= c && c < len(t.Rows[r].Cells) && old(t.Rows[r].Cells[c].Properties) != nil ==> t.Rows[r].Cells[c].Properties == old(t.Rows[r].Cells[c].Properties)
 //@   invariant forall r int, c int :: 0 <= r && (r < i || (r == i && c < #i)) && 0 <= c && c < len(t.Rows[r].Cells) ==> t.Rows[r].Cells[c].Properties != nil && t.Rows[r].Cells[c].Properties.Shd != nil && t.Rows[r].Cells[c].Properties.Shd.Val == "clear" && t.Rows[r].Cells[c].Properties.Shd.Fill == ite(r % 2 == 0, evenRowColor, oddRowColor)
 //@   decreases len(t.Rows[i].Cells) - #i
+
+// AddCellFormattedText appends ONE run to the first paragraph of the cell (installing an empty first paragraph when the
+// cell has none). The append may happen in place, beyond the length of the run array: paraRunsOwn is what makes that
+// invisible to every other paragraph.
+//@ func (*Table).AddCellFormattedText
+//@ props C09
+//@ requires t != nil && rowsOwn(t) && cellParasOwn(t) && paraRunsOwn(t)
+//@ modifies TableCell.Paragraphs, Paragraph.Runs, Run.*
+//@ ensures err == nil <==> (0 <= row && row < len(t.Rows) && 0 <= col && col < len(t.Rows[row].Cells))
+//@ ensures err != nil ==> unchangedHeap()
+//@ ensures err == nil && old(len(t.Rows[row].Cells[col].Paragraphs)) > 0 ==> t.Rows[row].Cells[col].Paragraphs == old(t.Rows[row].Cells[col].Paragraphs) && len(t.Rows[row].Cells[col].Paragraphs[0].Runs) == old(len(t.Rows[row].Cells[col].Paragraphs[0].Runs)) + 1
+//@ ensures err == nil && old(len(t.Rows[row].Cells[col].Paragraphs)) == 0 ==> len(t.Rows[row].Cells[col].Paragraphs) == 1 && freshArr(t.Rows[row].Cells[col].Paragraphs) && len(t.Rows[row].Cells[col].Paragraphs[0].Runs) == 1 && t.Rows[row].Cells[col].Paragraphs[0].Properties == nil
+//@ ensures err == nil ==> t.Rows[row].Cells[col].Paragraphs[0].Runs[len(t.Rows[row].Cells[col].Paragraphs[0].Runs) - 1].Text.Content == text && ((t.Rows[row].Cells[col].Paragraphs[0].Runs[len(t.Rows[row].Cells[col].Paragraphs[0].Runs) - 1].Properties == nil) == (format == nil))
+//@ ensures err == nil && format != nil ==> fresh(t.Rows[row].Cells[col].Paragraphs[0].Runs[len(t.Rows[row].Cells[col].Paragraphs[0].Runs) - 1].Properties) && ((t.Rows[row].Cells[col].Paragraphs[0].Runs[len(t.Rows[row].Cells[col].Paragraphs[0].Runs) - 1].Properties.Bold != nil) == format.Bold) && ((t.Rows[row].Cells[col].Paragraphs[0].Runs[len(t.Rows[row].Cells[col].Paragraphs[0].Runs) - 1].Properties.Italic != nil) == format.Italic)
+//@ ensures err == nil && old(len(t.Rows[row].Cells[col].Paragraphs)) > 0 ==> forall j int :: 0 <= j && j < old(len(t.Rows[row].Cells[col].Paragraphs[0].Runs)) ==> t.Rows[row].Cells[col].Paragraphs[0].Runs[j] == old(t.Rows[row].Cells[col].Paragraphs[0].Runs[j])
+//@ ensures err == nil ==> forall k int :: 1 <= k && k < len(t.Rows[row].Cells[col].Paragraphs) ==> t.Rows[row].Cells[col].Paragraphs[k] == old(t.Rows[row].Cells[col].Paragraphs[k])
+//@ ensures err == nil ==> forall k int, j int :: 1 <= k && k < len(t.Rows[row].Cells[col].Paragraphs) && 0 <= j && j < len(t.Rows[row].Cells[col].Paragraphs[k].Runs) ==> t.Rows[row].Cells[col].Paragraphs[k].Runs[j] == old(t.Rows[row].Cells[col].Paragraphs[k].Runs[j])
+//@ ensures err == nil ==> forall r int, c int :: 0 <= r && r < len(t.Rows) && 0 <= c && c < len(t.Rows[r].Cells) && (r != row || c != col) ==> t.Rows[r].Cells[c].Paragraphs == old(t.Rows[r].Cells[c].Paragraphs)
+//@ ensures err == nil ==> forall r int, c int, k int :: 0 <= r && r < len(t.Rows) && 0 <= c && c < len(t.Rows[r].Cells) && (r != row || c != col) && 0 <= k && k < len(t.Rows[r].Cells[c].Paragraphs) ==> t.Rows[r].Cells[c].Paragraphs[k] == old(t.Rows[r].Cells[c].Paragraphs[k])
+//@ ensures err == nil ==> forall r int, c int, k int, j int :: 0 <= r && r < len(t.Rows) && 0 <= c && c < len(t.Rows[r].Cells) && (r != row || c != col) && 0 <= k && k < len(t.Rows[r].Cells[c].Paragraphs) && 0 <= j && j < len(t.Rows[r].Cells[c].Paragraphs[k].Runs) ==> t.Rows[r].Cells[c].Paragraphs[k].Runs[j] == old(t.Rows[r].Cells[c].Paragraphs[k].Runs[j])
+//@ ensures err == nil ==> rowsOwn(t)
+//@ ensures err == nil ==> cellParasOwn(t)
+//@ ensures err == nil ==> paraRunsOwn(t)
+//@ ensures err == nil && old(cellPropsOwn(t)) ==> cellPropsOwn(t)
+//@ ensures err == nil && old(rowPropsOwn(t)) ==> rowPropsOwn(t)
